@@ -219,4 +219,93 @@ def c14(tier, seed):
         "by Gen.decode and compared with the chosen levels; non-trivial = table with more than 2 entries"), t0, machinery_error=err)
 
 
-CHECKS = {"C17": c17, "C15": c15, "C14": c14}
+def cont_tlc_case(c, exp_rec, ei):
+    """one returned sequence of a design with continuous factors -> the record Continuous.tla replays"""
+    names = [cd["name"] for cd in c["continuous"]]
+    idx = {n: k + 1 for k, n in enumerate(names)}
+    cf = []
+    for cd in c["continuous"]:
+        deps = []
+        for d in cd.get("deps", []):
+            if d["k"] == "d":
+                deps.append({"k": "d", "f": d["f"]})
+            elif d["k"] == "c":
+                deps.append({"k": "c", "idx": idx[d["name"]]})
+            else:
+                start = d.get("start")
+                deps.append({"k": "w", "fs": [idx[n] for n in d["names"]], "width": d["width"], "stride": d.get("stride", 1),
+                             "start": (d["width"] - 1) if start is None else start})
+        cf.append({"name": cd["name"], "deps": deps, "cumulative": bool(cd.get("cumulative")), "custom": cd["dist"] == "custom"})
+    cons = [{"fs": [idx[n] for n in k["names"]], "pred": {"op": k["pred"]["op"], "k": k["pred"].get("k", 0)}}
+            for k in c["block"]["cons"] if k["c"] == "Continuous"]
+    e = exp_rec["exps"][ei]
+    T = e["n"]
+    final = [exp_rec["cont"][ei].get(n, []) for n in names]
+    return {"T": T, "cf": cf, "cons": cons, "disc": e["s"], "calls": exp_rec["cont_log"], "final": final}
+
+
+def c22(tier, seed):
+    from checks_design import judge_sound
+    t0 = time.time()
+    rng = random.Random(seed)
+    cov, out, err = Coverage(), [], None
+    try:
+        cases = gen.continuous_cases(rng, 120 if tier == "quick" else 1500)
+
+        def ops(c):
+            return [{"op": "synth", "strategy": SAT, "n": 1, "timeout": 20}, {"op": "synth", "strategy": RND, "n": 1, "timeout": 20}]
+        for batch in batches(cases, 300):
+            res = pipeline.run_design(batch, ops, stats=cov.stats, do_enum=False, op_timeout=30)
+            ccases, keep = [], []
+            for r in res:
+                cov.evaluations += 1
+                if not r.built:
+                    # the constructor refuses some dependency chains (a continuous factor that depends on a continuous factor
+                    # with only discrete dependencies): not an accepted design, C22 says nothing about it
+                    cov.notes["refused_by_constructor"] = cov.notes.get("refused_by_constructor", 0) + 1
+                    continue
+                for oi in range(1, len(r.obs)):
+                    o = r.obs[oi]
+                    if o["status"] == "raised":
+                        out.append(violation("C22", "raised", r.case, strategy=o.get("strategy"), exc=o.get("exc"), site=o.get("site"),
+                                             op="synth", detail=o.get("msg")))
+                        continue
+                    if o["status"] != "returned" or o["count"] != 1:
+                        cov.notes["inconclusive"] = cov.notes.get("inconclusive", 0) + 1
+                        continue
+                    judge_sound("C22", r, oi, out)          # the discrete part stays valid
+                    ccases.append(cont_tlc_case(r.case, o, 0))
+                    keep.append((r.case, o))
+            if not ccases:
+                continue
+            path = tlc.write_cases(ccases, "cont")
+            try:
+                tr = tlc.run("Continuous.tla", "Continuous.cfg", env={"VERIF_CASES": path}, tags=("CONT",), timeout=1500)
+            finally:
+                os.unlink(path)
+            cov.stats["states"] = cov.stats.get("states", 0) + tr.distinct
+            cov.stats["transitions"] = cov.stats.get("transitions", 0) + tr.states
+            got = set()
+            for rec in tr.records:
+                got.add(rec[1])
+                c, o = keep[rec[1] - 1]
+                if rec[2] != "ok":
+                    out.append(violation("C22", "continuous", c, strategy=o.get("strategy"), verdict=rec[2], call=rec[3],
+                                         calls=ccases[rec[1] - 1]["calls"][max(0, rec[3] - 1):rec[3] + 2], final=ccases[rec[1] - 1]["final"]))
+            if len(got) != len(ccases):
+                raise tlc.TLCError("missing CONT verdicts")
+            for (c, o), cc in zip(keep, ccases):
+                if len(cc["calls"]) > cc["T"] or cc["cons"]:
+                    cov.nontrivial.add(canon(c))
+                    cov.sample({"case": {"block": c["block"], "continuous": c["continuous"]}, "calls": cc["calls"][:4], "final": cc["final"]})
+    except tlc.TLCError as e:
+        err = str(e)[:2000]
+    return common.finish("C22", tier, seed, "model_checking", out, cov.as_dict(
+        "seeded random designs with 1-3 continuous factors: recording CustomDistributions (dependencies on discrete factors, on "
+        "other continuous factors, ContinuousFactorWindow with width 1-3, stride 1-2, start default/early/late, cumulative) "
+        "and built-in distributions, with ContinuousConstraints; every call of a distribution is replayed by Continuous.tla (call "
+        "order, inputs, resampling, returned columns, constraints on the returned values); the discrete part by MCTrace; "
+        "non-trivial = more than T calls or at least one constraint"), t0, machinery_error=err)
+
+
+CHECKS = {"C17": c17, "C15": c15, "C14": c14, "C22": c22}
